@@ -431,7 +431,10 @@ class Buf(Nd):
             if q.concrete:
                 return self._lookup_enum(st, coords, q, limit)
             for lp in st.loops:
-                if lp.var is None or not isinstance(lp.it, Rng) or lp.it.step != ONE:
+                if lp.var is None or not isinstance(lp.it, Rng) or lp.it.step not in (ONE, Lin.c(-1)):
+                    return None
+                desc = lp.it.step != ONE
+                if desc and limit is not None and list(lp.var.symbols())[0] in limit:
                     return None
                 v = list(lp.var.symbols())[0]
                 solved = False
@@ -449,7 +452,10 @@ class Buf(Nd):
                         break
                 if not solved:
                     return None
-                r = q.inrange(mapping[v], lp.it.lo.subst(mapping), lp.it.hi.subst(mapping))
+                if desc:
+                    r = q.inrange(mapping[v], lp.it.hi.subst(mapping) + 1, lp.it.lo.subst(mapping) + 1)
+                else:
+                    r = q.inrange(mapping[v], lp.it.lo.subst(mapping), lp.it.hi.subst(mapping))
                 if r is False:
                     return "miss"
                 if r is None:
@@ -545,18 +551,19 @@ class Buf(Nd):
             lo = q.env.eval(lp.it.lo.subst(mapping))
             hi = q.env.eval(lp.it.hi.subst(mapping))
             step = q.env.eval(lp.it.step.subst(mapping))
-            if step <= 0:
+            if step == 0:
                 raise Uneval("loop step")
             vals = []
             x = lo
-            while x < hi:
+            while (x < hi) if step > 0 else (x > hi):
                 vals.append(x)
                 x += step
+            pos = {x: i_ for i_, x in enumerate(vals)}
             for x in reversed(vals):
                 if limit is not None and v in limit:
                     cur, seq = limit[v]
                     c = q.env.eval(cur)
-                    if x > c or (x == c and not st.seq < seq):
+                    if c not in pos or pos[x] > pos[c] or (x == c and not st.seq < seq):
                         continue
                 mapping[v] = Lin.c(x)
                 yield from rec(i + 1, mapping)
@@ -962,6 +969,22 @@ class ItemV:
         return "Item(%r[%r])" % (self.lst, self.idx)
 
 
+class BoundM:
+    """``self.method`` taken as a value (called later through a local name)."""
+
+    def __init__(self, selfv, name):
+        self.selfv, self.name = selfv, name
+
+    def __eq__(self, o):
+        return isinstance(o, BoundM) and self.selfv is o.selfv and self.name == o.name
+
+    def __hash__(self):
+        return hash(("BoundM", id(self.selfv), self.name))
+
+    def __repr__(self):
+        return "bound(%s)" % self.name
+
+
 class EnumV:
     def __init__(self, seq):
         self.seq = seq
@@ -1041,7 +1064,7 @@ class AInterp(Interp):
                     if attr in k.class_attrs:
                         return self.ev(k.class_attrs[attr], State(), Frame(k.module, frame.func, base.cls, k, frame.depth))
                     if attr in k.methods:
-                        break
+                        return BoundM(base, attr)
             return Opq("self." + attr)
         if isinstance(base, Ser) and attr == "index":
             return Opq("index-of", [base])
@@ -1242,6 +1265,10 @@ class AInterp(Interp):
     # -- loops ---------------------------------------------------------------------
     def _for(self, node, st, frame):
         it = self.ev(node.iter, st, frame)
+        if isinstance(it, Tup) and 0 < len(it.items) <= 16 and not any(isinstance(x, Alt) for x in it.items):
+            return self._for_unrolled(node, it.items, st, frame)
+        if isinstance(it, Rng) and it.step == Lin.c(-1):
+            return self._for_descending(node, it, st, frame)
         seq, enum = None, False
         if isinstance(it, EnumV):
             seq, enum = it.seq, True
@@ -1271,7 +1298,62 @@ class AInterp(Interp):
             return results + self.block(node.orelse, after, frame)
         return results + [(after, ("fall",))]
 
+    def _for_unrolled(self, node, items, st, frame):
+        """A loop over a literal tuple / list: every iteration is interpreted in order, with break / continue / for-else."""
+        live, broke, results = [st], [], []
+        for item in items:
+            nxt = []
+            for s in live:
+                self.assign(node.target, item, s, frame)
+                for s2, o in self.block(node.body, s, frame):
+                    if o[0] in ("fall", "continue"):
+                        nxt.append(s2)
+                    elif o[0] == "break":
+                        broke.append(s2)
+                    else:
+                        results.append((s2, o))
+            live = nxt
+            if len(live) + len(broke) + len(results) > self.max_states:
+                raise AnalysisError("trace partition limit exceeded in an unrolled loop of %s" % frame.func.name)
+        out = list(results)
+        for s in live:
+            out += self.block(node.orelse, s, frame) if node.orelse else [(s, ("fall",))]
+        out += [(s, ("fall",)) for s in broke]
+        return out
+
+    def _for_descending(self, node, it, st, frame):
+        """``range(a, b, -1)``: the loop variable takes a, a-1, ..., b+1 (facts: b+1 <= var <= a)."""
+        self.uid += 1
+        var = Lin.sym("%s#%d" % (dotted(node.target) or "it", self.uid))
+        body_st = st.copy()
+        body_st.facts.add_cmp(it.hi + 1, "<=", var, "descending loop range lower bound")
+        body_st.facts.add_cmp(var, "<=", it.lo, "descending loop range upper bound")
+        body_st.loops = list(st.loops) + [LoopCtx(var, it, node)]
+        self.assign(node.target, var, body_st, frame)
+        after = st.copy()
+        self._havoc(node.body, after)
+        if isinstance(node.target, ast.Name):
+            after.env[node.target.id] = Opq("loop-var-after:" + node.target.id)
+        results = []
+        for s, o in self.block(node.body, body_st, frame):
+            if o[0] == "return":
+                results.append((s, o))
+        if node.orelse:
+            return results + self.block(node.orelse, after, frame)
+        return results + [(after, ("fall",))]
+
     # -- calls ---------------------------------------------------------------------
+    def resolve_callee(self, e, fname, st, frame):
+        if isinstance(e.func, ast.Name):
+            v = st.env.get(e.func.id)
+            if isinstance(v, BoundM) and v.selfv.cls is not None:
+                hit = self.repo.lookup_method(v.selfv.cls, v.name)
+                if hit:
+                    k, fn = hit
+                    return k.module, fn, v.selfv, k, k.is_static(v.name)
+                return None
+        return super().resolve_callee(e, fname, st, frame)
+
     def ev_List(self, e, st, frame):
         if not e.elts:
             return ListV(e)
